@@ -6,6 +6,7 @@ package harness
 import (
 	"fmt"
 	"strings"
+	"sync"
 	"testing"
 
 	"github.com/trustbloc/sidetree-go/pkg/document"
@@ -347,5 +348,73 @@ func TestC11_Interleaved(t *testing.T) {
 			t.Fatalf("C11 keys/services differ when validated ietf-json-patches stand between the dedicated patches\n doc=%s\n patches=%s\n with the ietf patches    %s\n dedicated patches alone  %s", refJCS(doc), refJCS(all), a, d)
 		}
 		st.Case(nIetf >= 2, "interleaved|"+refJCS(doc)+refJCS(all), "interleaved", fmt.Sprintf("interleaved-ietf-%d-dedicated-%d", nIetf, nDed))
+	})
+}
+
+// TestC11_Concurrent: the validator's verdict on a patch does not depend on what other goroutines validate at the same
+// moment: operations on keys / services stay refused next to harmless ones of the same shape and length.
+func TestC11_Concurrent(t *testing.T) {
+	st := statsFor("C11")
+	check(t, "C11", 30, func(t *rapid.T) {
+		n := rapid.IntRange(2, 8).Draw(t, "goroutines")
+		rounds := rapid.IntRange(50, 400).Draw(t, "rounds")
+		type job struct {
+			p      patch.Patch
+			refuse bool
+			text   string
+		}
+		var jobs []job
+		for i := 0; i < n; i++ {
+			kind := rapid.SampledFrom([]string{"remove", "replace", "add", "copy", "move"}).Draw(t, "op")
+			protected := rapid.SampledFrom([]string{"/publicKey", "/service", "/publicKey/0", "/service/0/type"}).Draw(t, "protected")
+			// the harmless twin has the same length: one letter of the member name changed
+			harmless := strings.Replace(strings.Replace(protected, "publicKey", "publicKex", 1), "service", "servicf", 1)
+			target := harmless
+			refuse := i%2 == 0
+			if refuse {
+				target = protected
+			}
+			op := map[string]interface{}{"op": kind, "path": target}
+			switch kind {
+			case "replace", "add":
+				op["value"] = "v"
+			case "copy", "move":
+				op["from"] = "/name"
+				if rapid.Bool().Draw(t, "viaFrom") {
+					op["from"], op["path"] = target, "/name"
+				}
+			}
+			text := refJCS(map[string]interface{}{"action": "ietf-json-patch", "patches": []interface{}{op}})
+			lp, err := patch.FromBytes([]byte(text))
+			if err != nil {
+				t.Fatalf("C11 harness: %v", err)
+			}
+			jobs = append(jobs, job{lp, refuse, text})
+		}
+		errs := make(chan string, n)
+		var wg sync.WaitGroup
+		for i := range jobs {
+			wg.Add(1)
+			go func(j job) {
+				defer wg.Done()
+				for r := 0; r < rounds; r++ {
+					err := patchvalidator.Validate(j.p)
+					if j.refuse && err == nil {
+						errs <- "patch addressing keys / services passed validation: " + j.text
+						return
+					}
+					if !j.refuse && err != nil {
+						errs <- fmt.Sprintf("harmless patch refused (%v): %s", err, j.text)
+						return
+					}
+				}
+			}(jobs[i])
+		}
+		awaitWorkers(t, &wg, "C11 concurrent validation")
+		close(errs)
+		for e := range errs {
+			t.Fatalf("C11 (with %d goroutines validating at the same time) %s", n, e)
+		}
+		st.Case(true, fmt.Sprint("concurrent|", n, rounds, jobs[0].text), "concurrent", fmt.Sprintf("goroutines-%d", n))
 	})
 }
